@@ -379,6 +379,73 @@ theorem tieA_join_channels_walk {σ} (g : Rng σ) (j : Gen.PlanSelectFn.JoinChan
         Option.bind_some, Option.pure_def] at hnb ⊢
       exact hnb
 
+/-- the walk keeps its own invariant `AvWF` (so that `WalkWF` can be re-established for the next call; the counter
+bound `num_retries < usize::MAX` is the caller's) -/
+theorem tieA_walk_keeps_avwf {σ} (g : Rng σ) (j : Gen.PlanSelectFn.JoinChannels) (hw : WalkWF j) (s : σ) :
+    ∀ o, @Gen.JoinWalkFn.JoinChannels.get_next_channel σ (rngOf g) (fuelOf loopFuel) j s = some o →
+      AvWF o.2.1.available_channels := by
+  obtain ⟨⟨h1, h2, h3, h4⟩, hn, ha⟩ := hw
+  have hav := (tieA_avail_get_next g j ha s).2
+  have eck : Rt.ck .usize (j.num_retries + 1) = some (j.num_retries + 1) := Rt.ck_usize (by omega) (by omega)
+  have nb : ∀ (mk : Int × Gen.PlanSelectFn.AvailableChannels × σ → Gen.PlanSelectFn.JoinChannels)
+      (hmk : ∀ x, (mk x).available_channels = x.2.1) (o : Int × Gen.PlanSelectFn.JoinChannels × σ),
+      ((@Gen.JoinWalkFn.AvailableChannels.get_next σ (rngOf g) (fuelOf loopFuel) j.available_channels s).bind fun x =>
+        some (x.1, mk x, x.2.2)) = some o → AvWF o.2.1.available_channels := by
+    intro mk hmk o h
+    cases hg : @Gen.JoinWalkFn.AvailableChannels.get_next σ (rngOf g) (fuelOf loopFuel) j.available_channels s with
+    | none => rw [hg] at h; cases h
+    | some x =>
+      rw [hg] at h
+      simp only [Option.bind_some, Option.some.injEq] at h
+      subst h
+      simp only [hmk]
+      exact (hav x hg).2.2
+  intro o
+  unfold Gen.JoinWalkFn.JoinChannels.get_next_channel
+  cases hps : j.preferred_subband with
+  | none =>
+    simp only [eck, Option.bind_eq_bind, Option.bind_some, Option.pure_def]
+    refine nb _ ?_ o
+    intro x; rfl
+  | some sb =>
+    by_cases hlt : j.num_retries < j.max_retries
+    · have er : Rt.remC .u32 (((draw g s).1 : Nat) : Int) 8 = some ((((draw g s).1 % 8 : Nat)) : Int) :=
+        remC_u32_pow _ (draw_lt g s) 8 (by decide) (by decide)
+      have l1 : Rt.ck .usize (Rt.wrap .usize sb.toInt - 1) = some (((sb.toInt.toNat - 1) % 256 : Nat) : Int) := by
+        cases sb <;> decide
+      have l2 : Rt.ck .u8 (Rt.wrap .u8 ((((sb.toInt.toNat - 1) % 256 : Nat)) : Int) * 8)
+          = some ((((sb.toInt.toNat - 1) % 256 * 8 : Nat)) : Int) := by
+        cases sb <;> decide
+      have l3 : (sb.toInt.toNat - 1) % 256 * 8 ≤ 56 := by cases sb <;> decide
+      have l4 : Rt.ck .u8 ((((draw g s).1 % 8 : Nat) : Int) + ((((sb.toInt.toNat - 1) % 256 * 8 : Nat)) : Int))
+          = some ((((draw g s).1 % 8 + (sb.toInt.toNat - 1) % 256 * 8 : Nat)) : Int) := by
+        rw [Rt.ck_u8 (by omega) (by omega)]; congr 1
+      simp only [hlt, decide_true, if_true, eck, Option.bind_eq_bind, Option.bind_some,
+        Option.pure_def, next_rngOf, er, l1, l2, wrap_u8_nat _ (by omega : (draw g s).1 % 8 ≤ 255), l4]
+      have hch63 : (draw g s).1 % 8 + (sb.toInt.toNat - 1) % 256 * 8 ≤ 63 := by omega
+      generalize (draw g s).1 % 8 + (sb.toInt.toNat - 1) % 256 * 8 = ch at hch63 ⊢
+      obtain ⟨hal, hao, hap⟩ := ha
+      by_cases heq : j.num_retries + 1 = j.max_retries
+      · simp only [heq, decide_true, if_true]
+        cases hset : Gen.ChannelMaskFn.ChannelMask.set_channel j.available_channels.data (ch : Int) false with
+        | none => intro h; simp at h
+        | some m' =>
+          obtain ⟨hoct, hlen⟩ := set_channel_octets j.available_channels.data m' hao (ch : Int) (by omega) (by omega) false hset
+          intro h
+          simp only [Option.bind_some, Option.some.injEq] at h
+          subst h
+          refine ⟨hlen.trans hal, hoct, ?_⟩
+          intro p hp
+          simp only [Option.some.injEq] at hp
+          omega
+      · simp only [heq, decide_false, Bool.false_eq_true, if_false, Option.bind_some, Option.some.injEq]
+        intro h
+        subst h
+        exact ⟨hal, hao, hap⟩
+    · simp only [hlt, decide_false, Bool.false_eq_true, if_false, eck, Option.bind_eq_bind, Option.bind_some, Option.pure_def]
+      refine nb _ ?_ o
+      intro x; rfl
+
 /-! ## `JcOk` discharged: `FixedChannelPlan::select_tx_channel` run on the REGENERATED walk -/
 
 /-- **the join request of a fixed plan, walk included**: `FixedChannelPlan::select_tx_channel(.., Frame::Join)` with the
@@ -457,6 +524,7 @@ example :
 #print axioms tieA_get_next_channel_inner
 #print axioms tieA_avail_get_next
 #print axioms tieA_join_channels_walk
+#print axioms tieA_walk_keeps_avwf
 #print axioms tieA_fixed_select_join
 #print axioms tieA_fixed_select_data_biased
 #print axioms tieA_fixed_select_join_legal
